@@ -175,3 +175,29 @@ func c20CheckNegBig(c *h.Ctx, seed uint64) {
 		c.Fail("C20/concurrent-calls-influence-each-other/shared-input", fmt.Sprintf("concurrent decodes of one buffer: %s, alone: %s %s", diff, c1, s1), cs)
 	}
 }
+
+// c20CheckCallerSlices: encoding a byte string that is a window on a larger buffer of the caller (secrets
+// stored back to back) leaves the rest of that buffer alone, so what the neighbours encode to does not
+// depend on which of them was encoded before.
+func c20CheckCallerSlices(c *h.Ctx) {
+	for l := 1; l <= 17; l++ {
+		for _, enc := range []string{"ttlv", "xml", "json"} {
+			ring := bytes.Repeat([]byte{0xAB}, 64)
+			orig := bytes.Clone(ring)
+			cs := map[string]any{"mode": "caller-slice", "length": l, "encoding": enc}
+			func() {
+				defer func() { _ = recover() }()
+				v := ttlv.Value{Tag: 0x420043, Value: ring[8 : 8+l]}
+				pl := kmip.Attribute{AttributeName: "x-window", AttributeValue: ttlv.Value{Tag: 0x42000B, Value: ring[32 : 32+l]}}
+				_ = c20Marshal(enc, &v)
+				_ = c20Marshal(enc, &pl)
+			}()
+			c.Eval(fmt.Sprintf("caller-slice/%s/%d", enc, l), true)
+			c.Count("caller-slice")
+			if !bytes.Equal(ring, orig) {
+				c.Fail("C20/encode-writes-into-callers-memory", fmt.Sprintf("encoding (%s) a %d-byte window of a 64-byte buffer changed the buffer outside the window: %x", enc, l, ring), cs)
+				return
+			}
+		}
+	}
+}
